@@ -714,6 +714,7 @@ int vorbis_synthesis_restart(vorbis_dsp_state *v){
   v->sequence=-1;
   v->eofflag=0;
   ((private_state *)(v->backend_state))->sample_count=-1;
+  ((private_state *)(v->backend_state))->lapout_done=0;
 
   return(0);
 }
@@ -761,6 +762,8 @@ int vorbis_synthesis_blockin(vorbis_dsp_state *v,vorbis_block *vb){
 
     int thisCenter;
     int prevCenter;
+
+    b->lapout_done=0;
 
     v->glue_bits+=vb->glue_bits;
     v->time_bits+=vb->time_bits;
@@ -976,6 +979,7 @@ int vorbis_synthesis_read(vorbis_dsp_state *v,int n){
 int vorbis_synthesis_lapout(vorbis_dsp_state *v,float ***pcm){
   vorbis_info *vi=v->vi;
   codec_setup_info *ci=vi->codec_setup;
+  private_state *b=v->backend_state;
   int hs=ci->halfrate_flag;
 
   int n=ci->blocksizes[v->W]>>(hs+1);
@@ -992,6 +996,11 @@ int vorbis_synthesis_lapout(vorbis_dsp_state *v,float ***pcm){
      possibly needed. Otherwise, we'd need to call lapout more than
      once as well as hold additional dsp state.  Opt for
      simplicity. */
+
+  /* the buffer stays as arranged below until the next block comes
+     in; arranging it a second time would move the data again */
+  if(b->lapout_done)goto done;
+  b->lapout_done=1;
 
   /* centerW was advanced by blockin; it would be the center of the
      *next* block */
@@ -1037,6 +1046,7 @@ int vorbis_synthesis_lapout(vorbis_dsp_state *v,float ***pcm){
     }
   }
 
+ done:
   if(pcm){
     int i;
     for(i=0;i<vi->channels;i++)
